@@ -18,6 +18,7 @@ def main():
     data = json.load(sys.stdin)
     out = []
     docs = data.get("documents", {})
+    checked = {}
     for job in data["jobs"]:
         res = {"id": job["id"], "valid": None, "error": None, "schema_error": None}
         schema = job["schema"]
@@ -31,10 +32,17 @@ def main():
                 else:
                     wrapped = schema
                 schema = wrapped
-            try:
-                Draft202012Validator.check_schema(schema)
-            except Exception as e:  # schema itself is not a valid 2020-12 schema
-                res["schema_error"] = str(e).splitlines()[0][:300]
+            # the wrapped schema embeds the whole components section: checking it against the meta-schema is
+            # by far the most expensive step, and identical for every job that uses the same (document, schema)
+            key = (job.get("doc"), json.dumps(job["schema"], sort_keys=True, default=str))
+            if key not in checked:
+                try:
+                    Draft202012Validator.check_schema(schema)
+                    checked[key] = None
+                except Exception as e:  # schema itself is not a valid 2020-12 schema
+                    checked[key] = str(e).splitlines()[0][:300]
+            if checked[key] is not None:
+                res["schema_error"] = checked[key]
             v = Draft202012Validator(schema)
             errs = sorted(v.iter_errors(job["instance"]), key=lambda e: list(e.absolute_path))
             res["valid"] = not errs
